@@ -7,11 +7,13 @@ import Ucan.Props.Tie.Meta
 import Ucan.Props.Tie.ChainTime
 import Ucan.Props.Tie.ChainProofs
 import Ucan.Props.Tie.ChainAllowed
+import Ucan.Props.Tie.Tokenize
 import Ucan.Props.C01
 import Ucan.Props.C04
 import Ucan.Props.C05
 import Ucan.Props.C12
 import Ucan.Props.C13
+import Ucan.Props.C14
 import Ucan.Props.C15
 import Ucan.Props.C19
 /-!
@@ -62,6 +64,26 @@ theorem validateKey_ok_iff (key : Option Bytes) :
     Gen.validateKey key = .ok () ↔ ∃ k, key = some k ∧ k.length = 32 ∧ ¬ (∀ b ∈ k, b = 0) := by
   rw [validateKey_eq, ← Meta.C19_validateKey_iff]
   cases Meta.validateKey key <;> simp [Except.map, Except.mapError]
+
+/-- C14, on the regenerated `tokenize`: when it reports success, the tokens concatenate to the input — no byte of the
+selector is dropped and none invented — and it reports failure exactly when a quote is left open -/
+theorem tokenize_lossless (str : Bytes) (h0 : str.head? ≠ some 34) :
+    (∀ toks, Gen.tokenize str = .ok (toks, true) → toks.flatten = str) ∧
+    (Gen.tokenize str = .ok ([], false) ↔ (Selector.tokenize str).2 = true) := by
+  rw [tokenize_eq str h0]
+  unfold tokResult
+  constructor
+  · intro toks h
+    cases h2 : (Selector.tokenize str).2 with
+    | true => simp [h2] at h
+    | false =>
+      simp [h2] at h
+      rw [← h]
+      exact Selector.C14_tokenize_partition str
+  · cases h2 : (Selector.tokenize str).2 <;> simp [h2]
+
+example : Gen.tokenize [46, 97, 91, 34, 46, 34, 93] = .ok ([[46, 97], [91, 34, 46, 34, 93]], true) := by
+  rw [tokenize_eq _ (by decide)]; exact congrArg _ (by decide)
 
 variable {D C : Type} [DecidableEq D]
 
